@@ -177,9 +177,10 @@ def get_ast(func):
     source = inspect.cleandoc('\n' + rawsource)
     try:
         module = ast.parse(source)
-    except (SyntaxError, ValueError):
-        # not a whole statement (a lambda inside a larger expression), or the
-        # file was changed after it was imported
+    except (SyntaxError, ValueError, RecursionError, MemoryError):
+        # not a whole statement (a lambda inside a larger expression), the
+        # file was changed after it was imported, or the code is nested
+        # deeper than the parser will go
         return None
     if not module.body or not isinstance(
             module.body[0], (ast.FunctionDef, ast.AsyncFunctionDef)):
